@@ -35,6 +35,12 @@ def confirm(src, sid, prop):
         res['ctest_with_change'] = out.strip().split('\n')[0]
         if rc or '100% tests passed' not in out: print('tests fail with the change:', out); return 1
         demo_cmd = 'g++ -std=c++17 -I include -I src %s _build/libcctz.a -lpthread -o /tmp/sv/%s.demo' % (demo, sid)
+        if os.environ.get('SEEDED_SAN'):
+            # the violation is undefined behaviour without a visible wrong result: demo and library sources under UBSan
+            srcs = ' '.join('src/' + f for f in ('civil_time_detail.cc', 'time_zone_fixed.cc', 'time_zone_format.cc', 'time_zone_if.cc', 'time_zone_impl.cc',
+                                                 'time_zone_info.cc', 'time_zone_libc.cc', 'time_zone_lookup.cc', 'time_zone_posix.cc', 'zone_info_source.cc'))
+            demo_cmd = 'g++ -std=c++17 -O1 -fsanitize=undefined -fno-sanitize-recover=all -I include -I src %s %s -lpthread -o /tmp/sv/%s.demo' % (demo, srcs, sid)
+            res['demo_build'] = 'demo and library sources compiled with -fsanitize=undefined -fno-sanitize-recover=all'
         rc, out = sh(demo_cmd, cwd=wt)
         if rc: print('demo does not build:', out[-2000:]); return 1
         env = {'TZDIR': os.path.join(wt, 'testdata/zoneinfo')}
@@ -63,6 +69,11 @@ def confirm(src, sid, prop):
         except OSError: pass
 
 def detect(sid, checks):
+    # SEEDED_SCRATCH=<clean worktree of /repo's HEAD>: apply there instead of /repo and point the checks at it
+    # (VERIF_REPO), so that detection can run while /repo itself is in use
+    global REPO
+    scratch = os.environ.get('SEEDED_SCRATCH')
+    if scratch: REPO = scratch
     d = os.path.join(V, 'seeded', sid)
     meta = json.load(open(os.path.join(d, 'meta.json')))
     if not checks: checks = [meta['property']]
@@ -74,7 +85,7 @@ def detect(sid, checks):
     try:
         for c in checks:
             t = time.time()
-            rc, out = sh('./check %s --tier quick' % c, cwd=V, timeout=7200, env={'VERIF_EVIDENCE_DIR': os.path.join(V, '.cache', 'evidence-seeded')})
+            rc, out = sh('./check %s --tier quick' % c, cwd=V, timeout=7200, env=dict({'VERIF_EVIDENCE_DIR': os.path.join(V, '.cache', 'evidence-seeded')}, **({'VERIF_REPO': scratch} if scratch else {})))
             lines = [l for l in out.split('\n') if l.startswith('VIOLATION') or l.startswith('  violation') or l.startswith('  broken')]
             results[c] = {'exit': rc, 'detected': rc == 1, 'wall_s': round(time.time() - t, 1), 'lines': lines[:6]}
             print(sid, c, 'DETECTED' if rc == 1 else ('missed' if rc == 0 else 'rc=%d' % rc), '%.0fs' % (time.time() - t)); 
